@@ -41,9 +41,10 @@ type (
 	EIndex struct{ X, I Expr }
 	ESlice struct{ X, Lo, Hi Expr }
 	EQuant struct {
-		Forall bool
-		Vars   []Param
-		Body   Expr
+		Forall   bool
+		Vars     []Param
+		Body     Expr
+		Triggers []Expr // explicit multi-pattern (axioms)
 	}
 	ELet struct {
 		Name      string
@@ -277,7 +278,7 @@ func (p *parser) unary() Expr {
 			}
 			p.expectOp("::")
 			body := p.expr(0)
-			return &EQuant{t.val == "forall", vars, body}
+			return &EQuant{Forall: t.val == "forall", Vars: vars, Body: body}
 		case "let":
 			p.pos++
 			n := p.ident()
@@ -533,9 +534,10 @@ func parseSpecFile(path string) (*SpecFile, error) {
 	sf := &SpecFile{Path: path, Imports: map[string]string{}}
 	var cur *FuncContract
 	var curLemma *Lemma
+	var curAxiom *Axiom
 	for _, l := range lines {
 		if itemKw[l.kw] {
-			cur, curLemma = nil, nil
+			cur, curLemma, curAxiom = nil, nil, nil
 		}
 		switch l.kw {
 		case "theory":
@@ -601,7 +603,8 @@ func parseSpecFile(path string) (*SpecFile, error) {
 			if err != nil {
 				return nil, fmt.Errorf("%s: %v", l.where, err)
 			}
-			sf.Axioms = append(sf.Axioms, &Axiom{Name: strings.TrimSpace(l.text[:i]), E: e, Src: l.text[i+1:], Where: l.where})
+			curAxiom = &Axiom{Name: strings.TrimSpace(l.text[:i]), E: e, Src: l.text[i+1:], Where: l.where}
+			sf.Axioms = append(sf.Axioms, curAxiom)
 		case "lemma":
 			i, j := strings.Index(l.text, "("), strings.LastIndex(l.text, ")")
 			if i < 0 || j < i {
@@ -652,6 +655,20 @@ func parseSpecFile(path string) (*SpecFile, error) {
 				sf.Ghosts = append(sf.Ghosts, g)
 			}
 		case "trigger":
+			if curLemma == nil && curAxiom != nil {
+				q, ok := curAxiom.E.(*EQuant)
+				if !ok {
+					return nil, fmt.Errorf("%s: trigger on a non-quantified axiom", l.where)
+				}
+				cs, err := parseLocsets(l)
+				if err != nil {
+					return nil, err
+				}
+				for _, c := range cs {
+					q.Triggers = append(q.Triggers, c.E)
+				}
+				continue
+			}
 			if curLemma == nil {
 				return nil, fmt.Errorf("%s: trigger outside lemma", l.where)
 			}
